@@ -71,6 +71,10 @@ func MapHas(m map[string]string, k string) bool   { panic("intrinsic") }
 func StrPtrEq(a, b *string) bool               { panic("intrinsic") }
 func Int64PtrEq(a, b *int64) bool              { panic("intrinsic") }
 func HasPrefix(s, p string) bool               { panic("intrinsic") }
+func TmplExpand(tmpl, id, ts string) string    { panic("intrinsic") }
+func Itoa(n int64) string                      { panic("intrinsic") }
+func CronNext(t int64, cron string) int64      { panic("intrinsic") }
+func CronValid(cron string) bool               { panic("intrinsic") }
 func StrPtrVal(p *string) string               { panic("intrinsic") }
 func Int64PtrVal(p *int64) int64               { panic("intrinsic") }
 func IsNil(p any) bool                         { panic("intrinsic") }
